@@ -129,13 +129,17 @@ def cxxflags(noopt):
 def compile_source_bc(src, outdir, noopt=False):
     """repo TU -> bitcode (cached per run in outdir)"""
     h = hashlib.sha1((src + str(noopt)).encode()).hexdigest()[:10]
-    out = os.path.join(outdir, os.path.basename(src).replace(".cpp", "") + "_" + h + ".bc")
+    out = os.path.join(outdir, os.path.basename(src).replace(".cpp", "").replace(".c", "") + "_" + h + ".bc")
     if os.path.exists(out):
         return out, ""
     path = src if os.path.isabs(src) else os.path.join(REPO, src)
     import threading
     tmp = out + f".tmp{os.getpid()}_{threading.get_ident()}"
-    rc, o, e, to, dt, _ = sh(["clang++-14"] + cxxflags(noopt) + INC + ["-c", "-emit-llvm", path, "-o", tmp], timeout=600)
+    if path.endswith(".c"):  # C translation units of the repository (dict_elm.c, ...)
+        cflags = [f for f in cxxflags(noopt) if not f.startswith("-std=") and f not in ("-fwhole-program-vtables", "-fno-access-control")] + ["-std=gnu11"]
+        rc, o, e, to, dt, _ = sh(["clang-14"] + cflags + INC + ["-c", "-emit-llvm", path, "-o", tmp], timeout=600)
+    else:
+        rc, o, e, to, dt, _ = sh(["clang++-14"] + cxxflags(noopt) + INC + ["-c", "-emit-llvm", path, "-o", tmp], timeout=600)
     if rc != 0:
         return None, e[-3000:]
     os.replace(tmp, out)
